@@ -106,10 +106,11 @@ Qed.
 Lemma opt_within_runes sk : opt_within len sk -> opt_within rune_count sk.
 Proof. intros H k E. pose proof (H k E). pose proof (rune_count_le k). lia. Qed.
 
-(* 65 536 bytes of JSON, or 255 code points of type / state key: refused, whatever else holds *)
-Lemma fields_hard_limit v json_len type sk sender :
-  65536 < json_len \/ 255 < rune_count type \/ opt_over rune_count sk ->
-  check_fields v false json_len type sk sender = VTooLarge false.
+(* 65 536 bytes of JSON, or 255 code points of type / state key / sender: refused, whatever
+   else holds *)
+Lemma fields_hard_limit v json_len type sk sender room :
+  65536 < json_len \/ 255 < rune_count type \/ opt_over rune_count sk \/ 255 < rune_count sender ->
+  check_fields v false json_len type sk sender room = VTooLarge false.
 Proof.
   intro H. unfold check_fields. rewrite max_event_length_65536.
   destruct (65536 <? json_len) eqn:E1; [reflexivity|].
@@ -118,45 +119,53 @@ Proof.
   rewrite <- max_id_length_255.
   destruct (opt_over_dec rune_count sk) as [O|W].
   - rewrite (opt_test_true _ _ O). reflexivity.
-  - exfalso. apply N.ltb_ge in E1, E2. destruct H as [H|[H|[k [E H]]]]; try lia.
+  - rewrite (opt_test_false _ _ W). rewrite max_id_length_255.
+    destruct (255 <? rune_count sender) eqn:E3; [reflexivity|].
+    exfalso. apply N.ltb_ge in E1, E2, E3. destruct H as [H|[H|[[k [E H]]|H]]]; try lia.
     pose proof (W k E). lia.
 Qed.
 
 (* only the byte limit of type / state key exceeded: persistable in every lenient version *)
-Lemma fields_byte_limit v json_len type sk sender :
+Lemma fields_byte_limit v json_len type sk sender room :
   lenient_version v = true ->
   json_len <= 65536 -> rune_count type <= 255 -> opt_within rune_count sk ->
+  rune_count sender <= 255 ->
   255 < len type \/ opt_over len sk ->
-  check_fields v false json_len type sk sender = VTooLarge true.
+  check_fields v false json_len type sk sender room = VTooLarge true.
 Proof.
-  intros L H1 H2 H3 H. unfold check_fields. rewrite max_event_length_65536, L.
+  intros L H1 H2 H3 H4 H. unfold check_fields. rewrite max_event_length_65536, L.
   apply N.ltb_ge in H1. rewrite H1.
   rewrite max_id_length_255. pose proof H2 as H2'. apply N.ltb_ge in H2'. rewrite H2'.
   rewrite <- max_id_length_255. rewrite (opt_test_false _ _ H3).
-  rewrite max_id_length_255.
+  rewrite max_id_length_255. pose proof H4 as H4'. apply N.ltb_ge in H4'. rewrite H4'.
   destruct (255 <? len type) eqn:E; [reflexivity|].
   rewrite <- max_id_length_255.
   destruct H as [H|H]; [apply N.ltb_ge in E; lia|].
   rewrite (opt_test_true _ _ H). reflexivity.
 Qed.
 
-(* type and state key within the byte limit: the verdict is the sender check *)
-Lemma fields_within v json_len type sk sender :
-  json_len <= 65536 -> len type <= 255 -> opt_within len sk ->
-  check_fields v false json_len type sk sender =
-    if bytes_eqb v pseudo_id_version then check_id_length sender else check_id sender 64.
+(* type and state key within the byte limit, sender within the code-point limit: the verdict is
+   the sender check, then the byte size of the room ID *)
+Lemma fields_within v json_len type sk sender room :
+  json_len <= 65536 -> len type <= 255 -> opt_within len sk -> rune_count sender <= 255 ->
+  check_fields v false json_len type sk sender room =
+    match (if bytes_eqb v pseudo_id_version then check_id_length sender else check_id sender 64) with
+    | VOk => check_id_length room
+    | e => e
+    end.
 Proof.
-  intros H1 H2 H3. unfold check_fields. rewrite max_event_length_65536.
+  intros H1 H2 H3 H4. unfold check_fields. rewrite max_event_length_65536.
   apply N.ltb_ge in H1. rewrite H1.
   pose proof (rune_count_le type) as R. rewrite max_id_length_255.
   assert (R2 : rune_count type <= 255) by lia. apply N.ltb_ge in R2. rewrite R2.
   rewrite <- max_id_length_255. rewrite (opt_test_false _ _ (opt_within_runes _ H3)).
-  rewrite max_id_length_255. apply N.ltb_ge in H2. rewrite H2.
+  rewrite max_id_length_255. apply N.ltb_ge in H4. rewrite H4.
+  apply N.ltb_ge in H2. rewrite H2.
   rewrite <- max_id_length_255. rewrite (opt_test_false _ _ H3). reflexivity.
 Qed.
 
-Lemma fields_refs_nil v json_len type sk sender :
-  check_fields v true json_len type sk sender = VErr.
+Lemma fields_refs_nil v json_len type sk sender room :
+  check_fields v true json_len type sk sender room = VErr.
 Proof. reflexivity. Qed.
 
 (* ---- the lenient set is exactly the set of registered versions ---- *)
@@ -169,11 +178,13 @@ Proof. split; vm_compute; reflexivity. Qed.
 Section Table.
   Variables (struct : N) (v : bytes) (json_len : N) (type : bytes) (sk : option bytes)
             (sender room : bytes).
-  Hypothesis Hstruct : (struct =? 3) = false.
+  (* eventV1 / eventV2 check the room ID with checkID; eventV3 (other than the create event, whose
+     room ID is derived) demands the sigil only *)
+  Hypothesis Hstruct : (struct =? 3) = false /\ shaped 33 room
+                       \/ (struct =? 3) = true /\ is_create_v3 type sk = false /\ exists r, room = 33 :: r.
   Hypothesis Hlenient : lenient_version v = true.
   Hypothesis Hpseudo : bytes_eqb v pseudo_id_version = false.
   Hypothesis Hsender : shaped 64 sender.
-  Hypothesis Hroom : shaped 33 room.
   (* the event is otherwise valid: its room ID is one spec.NewRoomID accepts (repair of F9) *)
   Hypothesis Hroomvalid : room_valid room = true.
 
@@ -193,27 +204,30 @@ Section Table.
   Definition all_within_limits : Prop :=
     json_len <= 65536 /\ len type <= 255 /\ opt_within len sk /\ len sender <= 255 /\ len room <= 255.
 
-  (* no field exceeds the byte limit while staying inside the code-point limit *)
-  Definition no_byte_only_excess : Prop :=
-    (len type <= 255 \/ 255 < rune_count type) /\ (opt_within len sk \/ opt_over rune_count sk)
-    /\ (len sender <= 255 \/ 255 < rune_count sender) /\ (len room <= 255 \/ 255 < rune_count room).
-
   Lemma verdict_unfold :
-    verdict_of = match check_id_length room with
-                 | VOk => check_fields v false json_len type sk sender
+    verdict_of = match not_only_too_many_bytes (check_id_length room) with
+                 | VOk => check_fields v false json_len type sk sender room
                  | e => e
                  end.
   Proof.
-    unfold verdict_of, event_checks, check_room. rewrite Hstruct.
-    rewrite (check_id_shaped 33 room Hroom).
-    destruct (check_id_length room); rewrite ?Hroomvalid; reflexivity.
+    unfold verdict_of, event_checks, check_room, room_id_of.
+    destruct Hstruct as [[-> Hroom]|(-> & -> & r & Er)].
+    - rewrite (check_id_shaped 33 room Hroom). cbn [andb].
+      destruct (not_only_too_many_bytes (check_id_length room)); rewrite ?Hroomvalid; reflexivity.
+    - cbn [andb]. rewrite Hroomvalid. rewrite Er at 1. rewrite N.eqb_refl. reflexivity.
+  Qed.
+
+  Lemma room_not_refused : rune_count room <= 255 -> not_only_too_many_bytes (check_id_length room) = VOk.
+  Proof.
+    intro H. destruct (id_length_cases room) as [[-> _]|[[-> _]|[_ Hr]]]; [reflexivity|reflexivity|lia].
   Qed.
 
   Lemma table_ok : all_within_limits -> verdict_of = VOk.
   Proof.
-    intros (H1 & H2 & H3 & H4 & H5). rewrite verdict_unfold, (id_length_ok room H5).
-    rewrite (fields_within v json_len type sk sender H1 H2 H3), Hpseudo.
-    rewrite (check_id_shaped 64 sender Hsender). apply id_length_ok. exact H4.
+    intros (H1 & H2 & H3 & H4 & H5). rewrite verdict_unfold, (id_length_ok room H5). cbn [not_only_too_many_bytes].
+    pose proof (rune_count_le sender) as Ls.
+    rewrite (fields_within v json_len type sk sender room H1 H2 H3 ltac:(lia)), Hpseudo.
+    rewrite (check_id_shaped 64 sender Hsender). rewrite (id_length_ok sender H4). apply id_length_ok. exact H5.
   Qed.
 
   Lemma opt_over_within_absurd f sk' : opt_over f sk' -> opt_within f sk' -> False.
@@ -222,34 +236,26 @@ Section Table.
   Lemma table_persistable :
     no_hard_limit_exceeded -> byte_limit_exceeded -> verdict_of = VTooLarge true.
   Proof.
-    intros (H1 & H2 & H3 & H4 & H5) B. rewrite verdict_unfold.
-    destruct (id_length_cases room) as [[-> Hr]|[[-> _]|[_ Hr]]]; [|reflexivity|lia].
+    intros (H1 & H2 & H3 & H4 & H5) B. rewrite verdict_unfold, (room_not_refused H5).
     destruct (N.le_gt_cases (len type) 255) as [Ht|Ht];
       [|apply fields_byte_limit; auto].
     destruct (opt_over_dec len sk) as [Ok|Wk];
       [apply fields_byte_limit; auto|].
-    rewrite (fields_within v json_len type sk sender H1 Ht Wk), Hpseudo.
+    rewrite (fields_within v json_len type sk sender room H1 Ht Wk H4), Hpseudo.
     rewrite (check_id_shaped 64 sender Hsender).
-    apply id_length_persistable; [exact H4|].
-    destruct B as [B|[B|[B|B]]]; try lia. exfalso. eapply opt_over_within_absurd; eauto.
+    destruct (N.le_gt_cases (len sender) 255) as [Hs|Hs].
+    - rewrite (id_length_ok sender Hs). apply id_length_persistable; [exact H5|].
+      destruct B as [B|[B|[B|B]]]; try lia. exfalso. eapply opt_over_within_absurd; eauto.
+    - rewrite (id_length_persistable sender H4 Hs). reflexivity.
   Qed.
 
-  Lemma table_refused :
-    hard_limit_exceeded -> no_byte_only_excess -> verdict_of = VTooLarge false.
+  (* any limit that is not lenient exceeded: refused, whatever else is merely too many bytes *)
+  Lemma table_refused : hard_limit_exceeded -> verdict_of = VTooLarge false.
   Proof.
-    intros Hh (N1 & N2 & N3 & N4). rewrite verdict_unfold.
-    destruct (id_length_cases room) as [[-> Hr]|[[_ [Hr1 Hr2]]|[-> _]]]; [|lia|reflexivity].
-    destruct (N.lt_ge_cases 65536 json_len) as [Hj|Hj]; [apply fields_hard_limit; auto|].
-    destruct (N.lt_ge_cases 255 (rune_count type)) as [Ht|Ht]; [apply fields_hard_limit; auto|].
-    destruct (opt_over_dec rune_count sk) as [Ok|Wk]; [apply fields_hard_limit; auto|].
-    assert (Ht' : len type <= 255) by (destruct N1; lia).
-    assert (Wk' : opt_within len sk).
-    { destruct N2 as [W|O]; [exact W|]. exfalso. eapply opt_over_within_absurd; eauto. }
-    rewrite (fields_within v json_len type sk sender Hj Ht' Wk'), Hpseudo.
-    rewrite (check_id_shaped 64 sender Hsender).
-    pose proof (rune_count_le room) as Lr.
-    destruct Hh as [H|[H|[H|[H|H]]]]; try lia.
-    - exfalso. eapply opt_over_within_absurd; eauto.
-    - apply id_length_refused. exact H.
+    intros Hh. rewrite verdict_unfold.
+    destruct (N.lt_ge_cases 255 (rune_count room)) as [Hr|Hr].
+    - rewrite (id_length_refused room Hr). reflexivity.
+    - rewrite (room_not_refused Hr). apply fields_hard_limit.
+      destruct Hh as [H|[H|[H|[H|H]]]]; auto. lia.
   Qed.
 End Table.
